@@ -29,6 +29,7 @@ package service
 // Service-side verification of an AP-REQ (property C01): success implies every clause of the statement, and the
 // identity handed to the application is the one sealed in the ticket.
 //@ func service.VerifyAPREQ(APReq, s) (ok, creds, err)
+//@   havocs lastIsReplay, lastPACBad
 //@   sets apreqAccepted := ok
 //@   sets apreqCreds := ref(creds)
 //@   ensures ok ==> err == nil && creds != nil
